@@ -95,10 +95,10 @@ CHECKS = {
     technique="TLA+ property monitor (ReceiverProps.tla) evaluated by TLC on traces recorded from the real MultiReceiver fed TLC-enumerated fault schedules (Gen_Recv.tla) over sessions recorded from the real Sender; the mechanism specification Receiver.tla is model-checked composed with the monitor for every push sequence within bounds (MC_Receiver.tla, with broken variants as vacuity guard; for C01 / C02 / C16 also System.tla, the end-to-end composition Sender.tla -> channel -> Receiver.tla) and bound to the code by trace validation (Trace_Receiver.tla: callbacks and container snapshot of every call)"),
  "C15": dict(
     category="model_checking",
-    text="ToiAlloc.tla (mechanism: next / reserved / handles / objects, allocate with skip of 0 and of reserved values, release) is model-checked for C15_Inv (next allocation free and non-zero, held values pairwise distinct and exactly the reserved set) from initial values {0, 1, M-2, M-1}; every operation history up to the depth bound that TLC prints is replayed on the real Sender for every TOI width with the initial value next to the wrap point, handle drops partly on another thread, plus the random default initial value and a full cycle of the 16-bit space with the maximum TOI live; Mon_Toi.tla judges every allocation (non-zero, within width, not reserved / attached to a live object, equal to the TOI of the object's packets) and SenderProps.tla the packets and FDT entries.",
+    text="ToiAlloc.tla (mechanism: next / reserved / handles / objects, allocate with skip of 0 and of reserved values, release) is model-checked for C15_Inv (next allocation free and non-zero, held values pairwise distinct and exactly the reserved set) from initial values {0, 1, M-2, M-1}; every operation history up to the depth bound that TLC prints is replayed on the real Sender for every TOI width with the initial value next to the wrap point, handle drops partly on another thread, plus the random default initial value and a full cycle of the 16-bit space with the maximum TOI live; Mon_Toi.tla judges every allocation (non-zero, within width, not reserved / attached to a live object, equal to the TOI of the object's packets) and SenderProps.tla the packets and FDT entries. Unbounded in the TOI width: proofs/ToiAllocProof.tla (TLAPS, all M >= 2: the value an allocation returns is non-zero, below M, not live) from the loop lemma that TLC checks exhaustively on ToiAlloc!Advance for M = 2..10, linked to ToiAlloc.tla by the TLC-checked action property AbsStep.",
     design_ref="DESIGN.md 4.3, 7 (C15)",
     note="Trusts TLC; TOIs compared as hexadecimal strings; 'live object' = is_added or still held by a sender session (hook snapshot); thread-safety is Send (compile-time assertion in the harness) plus drops executed on another thread, not a schedule exploration of Rust threads.",
-    technique="TLA+ mechanism spec model-checked with TLC; TLC-generated histories replayed on the real Sender; TLA+ monitor on the recorded traces"),
+    technique="TLA+ mechanism spec model-checked with TLC (and proved for every width with TLAPS from a TLC-checked loop lemma); TLC-generated histories replayed on the real Sender; TLA+ monitor on the recorded traces"),
  "C20": dict(
     category="model_checking",
     text="TLC enumerates every composition of the object length into read sizes for objects of 1..8 bytes (E, B in {1,2}, No-Code and Reed-Solomon, transfer count 1-2, with and without carousel cycles); the real Sender is run once from a buffer and once from a scripted seekable stream returning exactly those read sizes (and from a file, a 5-byte BufReader, 1-byte and 3-byte reads for larger objects); Mon_Source.tla requires the complete packet sequences (all decoded fields and payload digests, timestamps apart) to be identical, over several transfers and carousel cycles.",
